@@ -14,7 +14,7 @@ RULE = ('exhaustive small scope per routine: source shapes rank 1..3 / extents 1
         'repeat scalar 1..3 and per-element counts 0..3, every axis incl. negative and None; roll shifts in [-2n,2n] per axis and '
         '[-2N,2N] flat, every axis incl. negative, distinct axis tuples with mixed signs, repeated axes; pad widths 0..2 per side; take '
         'index lists with negative and repeated entries; concatenate / stack family over every axis and compatible second shape; '
-        'split sections and cut lists; sliding_window windows 1..extent; diagonal / tril / triu / tri / eye offsets in [-3,3] ([-5,5] thorough); '
+        'split sections and cut lists (interior / repeated / beyond the extent / descending, 1..3 cut points); sliding_window windows 1..extent (scalar, lists over axis None and over every axis list of length 1..2 incl. negative and repeated axes for rank <= 3); diagonal every axis pair in both spellings x every offset in [-3,3] ([-5,5] thorough) for rank <= 3 (rank 4: sampled offsets in the quick tier, all in the thorough tier); tril / triu / tri / eye offsets in the same range; '
         'where / compress over 0/1 patterns; resize targets 1..4; expand spacing 0..2; arange / linspace over integer and quarter grids. '
         'Every request is answered by the C++ view (IMPL), by the Lean model where one exists (all but arange/linspace/full/zeros/ones), '
         'and by NumPy or the documented definition (ORACLE). non-trivial = the generator marked the result as different from the source')
